@@ -3,7 +3,7 @@ import importlib
 import json
 import os
 
-MODULES = ['m_block_tokenizer', 'm_block_token', 'm_span_tokenizer', 'm_core_tokens', 'm_state', 'm_toc']
+MODULES = ['m_block_tokenizer', 'm_block_token', 'm_span_tokenizer', 'm_core_tokens', 'm_state', 'm_toc', 'm_markdown']
 LEMMA_MODULES = ['l_patterns', 'l_html', 'l_latex', 'l_classes']          # modules exporting LEMMAS = {key: (fn, [props])}
 
 _model = None
